@@ -8,14 +8,121 @@ The memo dictionary of the three-phase clone protocol (`_clone(memo)`, `_clone_r
 to the fresh object before it is returned are internal (no cover obligations: C19 is about what listeners are told, and the only
 announcement here is the creation of the new object)."""
 from z3 import And, Or, Not, Implies, Const, ForAll, BoolVal
-from specs.ir import IRSpec
+from z3 import If, Store
+from specs.ir import IRSpec, loop_spec
 from pyvc.logic import FIELDS
 
 FUNCTIONS = [
     ('Wire', 'clone', 'method', []),
     ('InnerPin', 'clone', 'method', []),
     ('OuterPin', 'clone', 'method', []),
+    ('Port', 'clone', 'method', []),
+    ('Cable', 'clone', 'method', []),
+    ('Instance', 'clone', 'method', []),
 ]
+
+
+# ------------------------------------------------------------------ loop invariants of the compound clones
+def _memo(lv, h):
+    m = lv.cur['memo'] if 'memo' in lv.cur else lv.env['memo']
+    return h['memo_k:%d' % m[1]], h['memo_v:%d' % m[1]]
+
+
+def _copies_loop(lv, child_cls, parent_field, list_name):
+    """`for p in self._children: new.append(p._clone(memo))`: one new child object per handled element, in the local list exactly once,
+    belonging to nothing yet; the memo maps each handled element to its copy; nothing that existed before the loop is written"""
+    c = lv.ctx; h, hl = lv.h, lv.hl
+    A, A0 = h['alloc'], hl['alloc']
+    new = lambda x: And(A[x], Not(A0[x]))
+    NP = lv.cur[list_name][1]
+    MK, MV = _memo(lv, h); MK0, MV0 = _memo(lv, hl)
+    x = Const('xq_cp', c.Ref)
+    out = [('C07', 'copies.local-list', ForAll([x], c.cnt(NP, x) == If(new(x), 1, 0), patterns=[c.cnt(NP, x)])),
+           ('C07', 'copies.new-objects', ForAll([x], Implies(new(x), And(c.cls(x) == c.C[child_cls], h[parent_field][x] == c.null)),
+                                                patterns=[A[x], h[parent_field][x]])),
+           ('C07', 'copies.memo-handled', ForAll([x], Implies(lv.seen[x], And(MK[x], new(MV[x]))), patterns=[lv.seen[x], MV[x]])),
+           ('C07', 'copies.memo-others', ForAll([x], Implies(Not(lv.seen[x]), And(MK[x] == MK0[x], MV[x] == MV0[x])), patterns=[MK[x], MV[x]])),
+           ('C07', 'copies.count', c.len(NP) == c.card(lv.seen))]
+    return out
+
+
+def _old_untouched(lv, fields):
+    c = lv.ctx; h, hl = lv.h, lv.hl
+    x = Const('xq_ou', c.Ref)
+    return [('C07', 'old-objects.' + f_, ForAll([x], Implies(hl['alloc'][x], h[f_][x] == hl[f_][x]), patterns=[h[f_][x]])) for f_ in fields]
+
+
+@loop_spec('Port._clone', 0, 'list', ['alloc', '_port', '_wire', 'memo*'], {'new_pins': 'list'})
+def _inv_port_clone_0(lv):
+    return _copies_loop(lv, 'InnerPin', '_port', 'new_pins') + _old_untouched(lv, ['_port', '_wire'])
+
+
+@loop_spec('Port._clone', 1, 'list', ['_port'])
+def _inv_port_clone_1(lv):
+    c = lv.ctx; h, hl = lv.h, lv.hl; cp = lv.cur['c'][1]
+    x = Const('xq_p1', c.Ref)
+    return [('C07', 'adopted', ForAll([x], h['_port'][x] == If(lv.seen[x], cp, hl['_port'][x]), patterns=[h['_port'][x]]))]
+
+
+@loop_spec('Cable._clone', 0, 'list', ['alloc', '_cable', '_pins', 'memo*'], {'new_wires': 'list'})
+def _inv_cable_clone_0(lv):
+    return _copies_loop(lv, 'Wire', '_cable', 'new_wires') + _old_untouched(lv, ['_cable', '_pins'])
+
+
+@loop_spec('Cable._clone', 1, 'list', ['_cable'])
+def _inv_cable_clone_1(lv):
+    c = lv.ctx; h, hl = lv.h, lv.hl; cp = lv.cur['c'][1]
+    x = Const('xq_c1', c.Ref)
+    return [('C07', 'adopted', ForAll([x], h['_cable'][x] == If(lv.seen[x], cp, hl['_cable'][x]), patterns=[h['_cable'][x]]))]
+
+
+@loop_spec('Cable._clone_rip', 0, 'list', ['_pins', '_cable'])
+def _inv_cable_rip_0(lv):
+    c = lv.ctx; h, hl = lv.h, lv.hl; self_ = lv.env['self'][1]
+    x = Const('xq_cr', c.Ref); y = Const('yq_cr', c.Ref)
+    return [('C07', 'ripped.cable', ForAll([x], h['_cable'][x] == If(lv.seen[x], self_, hl['_cable'][x]), patterns=[h['_cable'][x]])),
+            ('C07', 'ripped.pins', ForAll([x, y], Implies(lv.seen[x], c.cnt(h['_pins'][x], y) == 0), patterns=[c.cnt(h['_pins'][x], y)])),
+            ('C07', 'ripped.pins-length', ForAll([x], Implies(lv.seen[x], c.len(h['_pins'][x]) == 0), patterns=[c.len(h['_pins'][x])])),
+            ('C07', 'ripped.others', ForAll([x], Implies(Not(lv.seen[x]), h['_pins'][x] == hl['_pins'][x]), patterns=[h['_pins'][x]]))]
+
+
+@loop_spec('Instance._clone', 0, 'opins', ['alloc', '_instance', '_inner_pin', '_wire', 'okeys', 'ovals', 'memo*'])
+def _inv_instance_clone_0(lv):
+    """one new outer pin per handled (inner pin, outer pin) item, stored in the clone under the same inner pin"""
+    c = lv.ctx; h, hl = lv.h, lv.hl; cp = lv.cur['c'][1]; self_ = lv.env['self'][1]
+    A, A0 = h['alloc'], hl['alloc']
+    new = lambda x: And(A[x], Not(A0[x]))
+    MK, MV = _memo(lv, h); MK0, MV0 = _memo(lv, hl)
+    q = Const('qq_ic', c.Ref); x = Const('xq_ic', c.Ref); i = Const('iq_ic', c.Ref)
+    o = lambda q_: h['ovals'][cp][q_]
+    opk = lambda q_: c._opkey(self_, q_)
+    out = [('C07', 'clone-keys', ForAll([q], h['okeys'][cp][q] == lv.seen[q], patterns=[h['okeys'][cp][q]])),
+           ('C07', 'clone-values', ForAll([q], Implies(lv.seen[q], And(new(o(q)), c.cls(o(q)) == c.C['OuterPin'], h['_instance'][o(q)] == cp,
+                                                                         h['_inner_pin'][o(q)] == q, h['_wire'][o(q)] == hl['_wire'][hl['ovals'][self_][q]])),
+                                           patterns=[o(q)])),
+           ('C07', 'new-objects-are-stored', ForAll([x], Implies(new(x), And(c.cls(x) == c.C['OuterPin'], h['_instance'][x] == cp, lv.seen[h['_inner_pin'][x]],
+                                                                             o(h['_inner_pin'][x]) == x)), patterns=[A[x]])),
+           ('C07', 'other-dictionaries', ForAll([i], Implies(i != cp, And(h['okeys'][i] == hl['okeys'][i], h['ovals'][i] == hl['ovals'][i])),
+                                                 patterns=[h['okeys'][i], h['ovals'][i]]))]
+    if True:
+        out.append(('C07', 'memo-unhandled', ForAll([q], Implies(Not(lv.seen[q]), Not(MK[opk(q)])), patterns=[MK[opk(q)]])))
+    return out + _old_untouched(lv, ['_instance', '_inner_pin', '_wire'])
+
+
+@loop_spec('Instance._clone_rip', 0, 'opins', ['_wire'])
+def _inv_instance_rip_0(lv):
+    c = lv.ctx; h, hl = lv.h, lv.hl; self_ = lv.env['self'][1]
+    x = Const('xq_ir', c.Ref)
+    done = lambda x_: And(hl['_instance'][x_] == self_, c.cls(x_) == c.C['OuterPin'], lv.seen[hl['_inner_pin'][x_]], hl['ovals'][self_][hl['_inner_pin'][x_]] == x_)
+    return [('C07', 'ripped', ForAll([x], h['_wire'][x] == If(done(x), c.null, hl['_wire'][x]), patterns=[h['_wire'][x]]))]
+
+
+@loop_spec('Port._clone_rip', 0, 'list', ['_wire'])
+def _inv_port_rip_0(lv):
+    c = lv.ctx; h, hl = lv.h, lv.hl
+    x = Const('xq_r0', c.Ref)
+    return [('C07', 'ripped', ForAll([x], h['_wire'][x] == If(lv.seen[x], c.null, hl['_wire'][x]), patterns=[h['_wire'][x]]))]
+
 
 
 class CloneSpec(IRSpec):
@@ -23,6 +130,8 @@ class CloneSpec(IRSpec):
 
     def __init__(self, ctx, ct):
         super().__init__(ctx, ct, listener='stock', check_cover=False)
+        from pyvc.se import ensure_opkey
+        ensure_opkey(ctx)
 
 
 def post(fname):
@@ -37,10 +146,20 @@ def post(fname):
         x = Const('xq_cl', c.Ref)
         out.append(('C07', 'result-is-new', And(Not(h0['alloc'][r]), h['alloc'][r], r != c.null)))
         out.append(('C07', 'result-has-the-class-of-the-original', c.cls(r) == c.cls(self_)))
-        out.append(('C07', 'nothing-else-allocated', ForAll([x], Implies(And(h['alloc'][x], x != r), h0['alloc'][x]), patterns=[h['alloc'][x]])))
+        owned = lambda y: BoolVal(False)
+        if fname == 'Port.clone': owned = lambda y: c.cnt(h['_pins'][r], y) > 0
+        if fname == 'Cable.clone': owned = lambda y: c.cnt(h['_wires'][r], y) > 0
+        if fname == 'Instance.clone': owned = lambda y: And(h['okeys'][r][h['_inner_pin'][y]], h['ovals'][r][h['_inner_pin'][y]] == y)
+        out.append(('C07', 'nothing-else-allocated', ForAll([x], Implies(And(h['alloc'][x], x != r, Not(owned(x))), h0['alloc'][x]), patterns=[h['alloc'][x]])))
         # the original and everything else is as it was
         for f_, (owners, kind) in FIELDS.items():
             if kind in ('ref', 'val', 'list', 'set'):
+                if f_ == '_references' and fname == 'Instance.clone':
+                    # documented: the clone joins the reference set of the definition it (still) references
+                    d0 = h0['_reference'][self_]
+                    out.append(('C07', 'original-untouched._references', ForAll([x], Implies(h0['alloc'][x], h[f_][x] == If(And(x == d0, d0 != c.null),
+                                Store(h0[f_][x], r, True), h0[f_][x])), patterns=[h[f_][x]])))
+                    continue
                 out.append(('C07', 'original-untouched.' + f_, ForAll([x], Implies(h0['alloc'][x], h[f_][x] == h0[f_][x]), patterns=[h[f_][x]])))
         for f_ in ('okeys', 'ovals', 'dhas', 'dval'):
             out.append(('C07', 'original-untouched.' + f_, ForAll([x], Implies(h0['alloc'][x], h[f_][x] == h0[f_][x]), patterns=[h[f_][x]])))
@@ -51,10 +170,38 @@ def post(fname):
                 Implies(c.isa(r, 'Wire'), And(h['_cable'][r] == c.null, c.len(h['_pins'][r]) == 0, ForAll([y], c.cnt(h['_pins'][r], y) == 0, patterns=[c.cnt(h['_pins'][r], y)]))),
                 Implies(c.isa(r, 'InnerPin'), And(h['_port'][r] == c.null, h['_wire'][r] == c.null)),
                 Implies(c.isa(r, 'OuterPin'), And(h['_instance'][r] == c.null, h['_inner_pin'][r] == c.null, h['_wire'][r] == c.null)))))
+        if fname == 'Port.clone':
+            y = Const('yq_pc', c.Ref)
+            out.append(('C07', 'clone-stands-alone', And(h['_definition'][r] == c.null,
+                        ForAll([y], Implies(c.cnt(h['_pins'][r], y) > 0, And(c.cnt(h['_pins'][r], y) == 1, Not(h0['alloc'][y]), c.cls(y) == c.C['InnerPin'],
+                                                                              h['_port'][y] == r, h['_wire'][y] == c.null)), patterns=[c.cnt(h['_pins'][r], y)]))))
+            out.append(('C07', 'faithful.width', c.len(h['_pins'][r]) == c.len(h0['_pins'][self_])))
+            for f_ in ('_direction', '_is_downto', '_is_scalar', '_lower_index'):
+                out.append(('C07', 'faithful.' + f_, h[f_][r] == h0[f_][self_]))
+            out.append(('C07', 'faithful.data', And(h['dhas'][r] == h0['dhas'][self_], h['dval'][r] == h0['dval'][self_])))
+        if fname == 'Instance.clone':
+            q = Const('qq_ip', c.Ref)
+            o = lambda q_: h['ovals'][r][q_]
+            out.append(('C07', 'clone-stands-alone', And(h['_parent'][r] == c.null,
+                        ForAll([q], Implies(h['okeys'][r][q], And(Not(h0['alloc'][o(q)]), c.cls(o(q)) == c.C['OuterPin'], h['_instance'][o(q)] == r,
+                                                                   h['_inner_pin'][o(q)] == q, h['_wire'][o(q)] == c.null)), patterns=[o(q)]))))
+            out.append(('C07', 'faithful.pins', ForAll([q], h['okeys'][r][q] == h0['okeys'][self_][q], patterns=[h['okeys'][r][q]])))
+            out.append(('C07', 'faithful.reference', h['_reference'][r] == h0['_reference'][self_]))
+            out.append(('C07', 'faithful.data', And(h['dhas'][r] == h0['dhas'][self_], h['dval'][r] == h0['dval'][self_])))
+        if fname == 'Cable.clone':
+            y = Const('yq_cc', c.Ref); z = Const('zq_cc', c.Ref)
+            out.append(('C07', 'clone-stands-alone', And(h['_definition'][r] == c.null,
+                        ForAll([y], Implies(c.cnt(h['_wires'][r], y) > 0, And(c.cnt(h['_wires'][r], y) == 1, Not(h0['alloc'][y]), c.cls(y) == c.C['Wire'],
+                                                                               h['_cable'][y] == r, c.len(h['_pins'][y]) == 0)), patterns=[c.cnt(h['_wires'][r], y)]),
+                        ForAll([y, z], Implies(c.cnt(h['_wires'][r], y) > 0, c.cnt(h['_pins'][y], z) == 0), patterns=[c.cnt(h['_pins'][y], z)]))))
+            out.append(('C07', 'faithful.width', c.len(h['_wires'][r]) == c.len(h0['_wires'][self_])))
+            for f_ in ('_is_downto', '_is_scalar', '_lower_index'):
+                out.append(('C07', 'faithful.' + f_, h[f_][r] == h0[f_][self_]))
+            out.append(('C07', 'faithful.data', And(h['dhas'][r] == h0['dhas'][self_], h['dval'][r] == h0['dval'][self_])))
         for prop, cname, g in spec.inv.clauses(h):
             out.append(('C07', 'Inv.' + cname, g))
         return out
     return f
 
 
-POSTS = {'%s.%s' % (f[0], f[1]): post(f[1]) for f in FUNCTIONS}
+POSTS = {'%s.%s' % (f[0], f[1]): post('%s.%s' % (f[0], f[1])) for f in FUNCTIONS}
